@@ -102,6 +102,24 @@ def oracles(ctx, cfg, rec):
                 bad.append("explained variance ratios are not taken against the total variance of the decomposed matrix")
             if tv > 0 and (np.any(rec["ratio"] < -1e-9) or np.any(rec["ratio"] > 1 + 1e-9) or rec["ratio"].sum() > 1 + 1e-7):
                 bad.append("explained variance ratios outside [0,1]")
+    # ExtendedEOF: the delay-embedded matrix built independently (optional PCA step, lag windows, centring of the windows)
+    if cfg["cls"] == "ExtendedEOF" and gap_ok and exact:
+        Y = G.independent_preprocess(cfg)
+        q = cfg.get("n_pca_modes")
+        if q:
+            Yc = Y - Y.mean(axis=0) if cfg["center"] else Y
+            Uq, Sq, _ = np.linalg.svd(Yc, full_matrices=False)
+            Y = Uq[:, :q] * Sq[:q]
+        e, tau = cfg["embedding"], cfg["tau"]
+        nk = Y.shape[0] - (e - 1) * tau
+        Zm = np.concatenate([Y[i * tau:i * tau + nk] for i in range(e)], axis=1)
+        if cfg["center"]:
+            Zm = Zm - Zm.mean(axis=0)
+        lamZ = np.sort(np.linalg.eigvalsh(Zm.T @ Zm / (nk - 1)))[::-1][:k]
+        scz = max(lamZ[0], 1e-300)
+        if len(lamZ) == len(rec["expvar"]) and not np.allclose(rec["expvar"], lamZ, rtol=1e-6, atol=1e-6 * scz):
+            bad.append("explained variances differ from the eigenvalues of the independently built delay-embedded covariance (%r vs %r)" % (
+                np.asarray(rec["expvar"])[:3], lamZ[:3]))
     if not np.allclose(rec["sv_api"], rec["norms"]) or not np.allclose(rec["ev_api"], rec["expvar"]):
         bad.append("accessor values differ from stored values")
     # reconstruction optimality against random rank-k competitors and the attained error
